@@ -6,7 +6,7 @@ from ..httpx import HS
 from ..absint import Interp, RETURN, Domain, NORMAL
 from ..deps import DepDomain, fs
 from ..linear import linform, same, show
-from ..astutil import method_call, unparse, parent, in_subtree, is_self_call
+from ..astutil import alpha, method_call, unparse, parent, in_subtree, is_self_call
 from ..index import dotted, walk_local
 
 EXPLANATION = ("C18: init/reset agreement of Responder: every attribute written while producing one response (start, "
@@ -144,13 +144,31 @@ def check(run):
     srv = ix.cls(HS, "Server")
     reqs, reps = ix.method(srv, "serviceReqs"), ix.method(srv, "serviceReps")
 
+    def roles(f):
+        """locals named by where their value comes from: elements of self.reqs are `requestant`, of self.reps / Responder() `responder`"""
+        ren = {}
+        src = {"self.reqs": "requestant", "self.reps": "responder"}
+        for n in walk_local(f.node):
+            if isinstance(n, ast.For) and isinstance(n.target, ast.Tuple) and len(n.target.elts) == 2 and isinstance(n.target.elts[1], ast.Name):
+                for a in ast.walk(n.iter):
+                    if isinstance(a, ast.Call) and isinstance(a.func, ast.Attribute) and a.func.attr == "items" and dotted(a.func.value) in src:
+                        ren[n.target.elts[1].id] = src[dotted(a.func.value)]
+            if isinstance(n, ast.Assign) and isinstance(n.targets[0], ast.Name):
+                v = n.value
+                if isinstance(v, ast.Subscript) and dotted(v.value) in src:
+                    ren[n.targets[0].id] = src[dotted(v.value)]
+                if isinstance(v, ast.Call) and dotted(v.func) == "Responder":
+                    ren[n.targets[0].id] = "responder"
+        return ren
+
     def guards(node, f):
         out = []
+        ren = roles(f)
         p, cur = parent(node), node
         while p is not None and p is not f.node:
             if isinstance(p, ast.If):
                 pol = any(in_subtree(node, b) for b in p.body)
-                out.append(("" if pol else "not ") + unparse(p.test))
+                out.append(("" if pol else "not ") + unparse(alpha(p.test, ren)))
             cur, p = p, parent(p)
         return out
     for n in walk_local(reqs.node):
